@@ -14,6 +14,11 @@ __all__ = ['CutoutImage']
 
 def _overlap_slices(large_array_shape, small_array_shape, position,
                     mode='partial'):
+    # astropy documents the shapes as tuples; an ndarray shape (e.g., from
+    # as_pair) makes its zero-width-overlap check raise a ValueError
+    # (ambiguous truth value) instead of NoOverlapError
+    large_array_shape = tuple(large_array_shape)
+    small_array_shape = tuple(small_array_shape)
     slc_lg, slc_sm = overlap_slices(large_array_shape, small_array_shape,
                                     position, mode=mode)
 
